@@ -99,9 +99,12 @@ def run(ctx):
                 if (e["x"] != 1 and not hidden_flag) or e["k"] == "cfg" or e["n"].startswith("_HP"):
                     continue
                 key = (e["k"], e["t"][:1] if e["k"] == "f" else "", e["sc"], "_" in e["n"], e["n"] in structural, hidden_flag)
-                if key not in chosen:
-                    chosen[key] = e
-            for e in chosen.values():
+                chosen.setdefault(key, []).append(e)
+            # one attribute of each kind per layout (thorough: two); WHICH one varies with the seed, so that no attribute name is exempt for good
+            picks = []
+            for cand in chosen.values():
+                picks += rng.sample(cand, min(len(cand), 2 if ctx.thorough else 1))
+            for e in picks:
                 vals = bad_values(e, rng)
                 if not ctx.thorough and len(vals) > 9:
                     vals = rng.sample(vals, 9)
